@@ -6,6 +6,7 @@ C18 — property statements.
 (b) `trailerCheck_reject_iff`, `truncated_footer_rejected_unless_trailer` (+ Parquet / IPC
     instances), `truncated_footer_rejected_of_no_inner_magic`, `short_prefix_rejected`
 (c) `sink_prefix`, `sink_ok_complete`, `sink_benign_ok`
+(d) `records_truncation`
 -/
 namespace ArrowModel.C18
 open ArrowModel.Generated.C18
@@ -270,5 +271,68 @@ example : runWriter [.short 2, .interrupted, .ok, .fail] [] [.write [1, 2, 3], .
 /-- a hard error while bytes are pending is returned (`write_all` does not swallow it) -/
 theorem writeAll_fail (s : List Resp) (acc : Bytes) (b : Nat) (buf : Bytes) :
     writeAll (.fail :: s) acc (b :: buf) = (s, acc, false) := rfl
+
+/-! ## (d) line-delimited records -/
+
+/-- **Line-delimited records, every truncation length.**  For any tokenizer for which each
+written record is prime and the delimiter keeps it idle, decoding the first `k` bytes of
+`r₁ \n r₂ \n …` and then flushing yields exactly the number of records whose last byte is
+within the `k` bytes, and `Decoder::flush`'s "Truncated record" error iff the cut is strictly
+inside a record.  (Partial with respect to arrow-json: that `TapeDecoder` is such a tokenizer
+for the writer's records is checked by the correspondence run with `jsonTok`, not proved.) -/
+theorem records_truncation {σ : Type} [DecidableEq σ] (t : Tokenizer σ) (hnl : t.step t.idle newline = t.idle)
+    (rs : List Bytes) (hp : ∀ r ∈ rs, Prime t r) (k : Nat) :
+    decodeRecords t ((encodeRecords rs).take k) = specRecords (rs.map List.length) k := by
+  induction rs generalizing k with
+  | nil => simp [encodeRecords, decodeRecords, specRecords, Tokenizer.completed, Tokenizer.run]
+  | cons r rs ih =>
+    have hr := hp r (List.mem_cons_self ..)
+    have hrs : ∀ x ∈ rs, Prime t x := fun x hx => hp x (List.mem_cons_of_mem _ hx)
+    simp only [encodeRecords, List.map_cons, specRecords]
+    by_cases hk : r.length ≤ k
+    · simp only [hk, if_true]
+      rw [take_append_ge hk]
+      cases hm : k - r.length with
+      | zero =>
+        have hz : 0 - 1 = 0 := rfl
+        rw [hz, specRecords_zero _ (by
+          intro l hl
+          simp only [List.mem_map] at hl
+          obtain ⟨x, hx, rfl⟩ := hl
+          have := (hrs x hx).1; omega)]
+        simp [decodeRecords, completed_prime t r hr, hr.2.1]
+      | succ m =>
+        have hz : m + 1 - 1 = m := by omega
+        rw [hz, ← ih hrs m]
+        have hX : List.take (m + 1) (newline :: encodeRecords rs) = newline :: List.take m (encodeRecords rs) := rfl
+        rw [hX]
+        generalize List.take m (encodeRecords rs) = X
+        have hc : t.completed t.idle (r ++ newline :: X) = t.completed t.idle X + 1 := by
+          rw [Tokenizer.completed_append, completed_prime t r hr, hr.2.1]
+          simp only [Tokenizer.completed, hnl]
+          simp
+          omega
+        have hrn : t.run t.idle (r ++ newline :: X) = t.run t.idle X := by
+          rw [Tokenizer.run_append, hr.2.1]
+          simp only [Tokenizer.run, List.foldl_cons, hnl]
+        simp only [decodeRecords, hc, hrn]
+    · simp only [hk, if_false]
+      have hk' : k < r.length := by omega
+      rw [take_append_lt (by omega)]
+      simp only [decodeRecords, completed_take_prime t r hr k hk']
+      by_cases h0 : k = 0
+      · subst h0; simp [Tokenizer.run]
+      · have := hr.2.2 k (by omega) hk'
+        simp [h0, this]
+
+
+/-- `jsonTok` keeps idle on the delimiter, and a JSON object is prime for it -/
+example : jsonTok.step jsonTok.idle newline = jsonTok.idle := by decide
+
+example : Prime jsonTok [123, 34, 97, 125, 34, 58, 49, 125] := by
+  refine ⟨by decide, by decide, ?_⟩
+  intro j h0 hj
+  have : j = 1 ∨ j = 2 ∨ j = 3 ∨ j = 4 ∨ j = 5 ∨ j = 6 ∨ j = 7 := by simp at hj; omega
+  rcases this with rfl | rfl | rfl | rfl | rfl | rfl | rfl <;> decide
 
 end ArrowModel.C18
